@@ -31,7 +31,36 @@ _BUFFER['vk_int_buffer_finding_ensure_capacity_cap1'] = {
     'note': 'latent: ensure_capacity(2) / push_resizing on a capacity-1 buffer does not grow (guard `&& num_words > 2`); '
             'capacity 1 only arises from allocate_exact(1), never followed by these calls in the crate'}
 
+
+
+def _scan(fname, prefix):
+    """Harness names defined in a harness file (every identifier with the group's unique prefix), in file order."""
+    import os
+    import re
+    path = os.path.join(os.path.dirname(os.path.dirname(os.path.dirname(os.path.abspath(__file__)))), 'kani', 'harness',
+                        fname)
+    out = []
+    for n in re.findall(r'\b(%s\w+)\b' % prefix, open(path).read()):
+        if n not in out:
+            out.append(n)
+    return out
+
+
+_R = 'one operation on an arbitrary well-formed Repr: inline (_i: capacity 1/2, symbolic words and sign) or heap with ' \
+     'the stated concrete capacity (_hN: symbolic length 3..=N, sign, contents; N <= 9); from_buffer: buffer capacity ' \
+     '_cN, length <= 7; ones: every n in the stated range (0..=200 in total)'
+_REPR = _h(_scan('int_repr.rs', 'vk_int_repr_'), _R)
+for _n in _REPR:
+    if '_clone' in _n:
+        _REPR[_n]['props'] = ['C17', 'C15']
+    else:
+        _REPR[_n]['props'] = ['C17', 'C05']
+
 KANI = {
+    'int_repr': {
+        'package': 'dashu-int', 'target': 'integer/src/repr.rs', 'file': 'int_repr.rs',
+        'harnesses': _REPR,
+    },
     'int_buffer': {
         'package': 'dashu-int', 'target': 'integer/src/buffer.rs', 'file': 'int_buffer.rs',
         'harnesses': _BUFFER,
